@@ -202,10 +202,18 @@ func (m *TargetsDiscovery) translateTargets(targets map[string][]*targetgroup.Gr
 	defer m.targetsLock.Unlock()
 
 	for job, targets := range actives {
+		// a reload may have removed the job while its targets were being translated
+		if m.config[job] == nil {
+			delete(actives, job)
+			continue
+		}
 		m.activeTargets[job] = targets
 	}
 
 	for job, targets := range drops {
+		if m.config[job] == nil {
+			continue
+		}
 		m.dropTargets[job] = targets
 	}
 
